@@ -90,6 +90,11 @@ int main (int argc, char** argv)
         : "4 overloads x Box3i x M44f and Box3s x M44d: 512 sparsity patterns x 5 fillings x 1 translation x 1216 boxes over {0..3} and {-2,-1,1}; 48 projective matrices with integer corner images (w = +-2) x 2000 boxes; 3097 empty + infinite inputs x 18 matrices",
         [&] { return c13::run_transforms_int (th); });
 
+    run_stage ("transforms.tiny-perspective", th
+        ? "transform(box,m), transform(box,m,result) (3 pre-fills, result aliasing box) with perspective entries 2^-K * {-1,0,1,2}^3 \\ 0 and box coordinates 2^K * lattice: float x float K in {74,75,100,120}, double x float {74,75,100,126,149}, double x double {537,538,600,1000}; uniform scale: 8 blocks x 3 translations x m33 in {1,2} x 2000 boxes over {0..3} and {-2,-1,1,2}; mixed scale (only the axes of a mask 1..6 large): 3 monomial blocks x 2000 boxes; every case with w != 0 on all corners"
+        : "transform(box,m), transform(box,m,result) (3 pre-fills, result aliasing box) with perspective entries 2^-K * {-1,0,1,2}^3 \\ 0 and box coordinates 2^K * lattice: float x float K in {74,75,100,120}, double x float {74,75,100,126,149}, double x double {537,538,600,1000}; uniform scale: 8 blocks x 2 translations x m33 = 1 (m33 = 2: generic full block) x 432 boxes over {0,1,3} and {-2,-1,1}; mixed scale (only the axes of a mask 1..6 large): 3 monomial blocks x 432 boxes; every case with w != 0 on all corners",
+        [&] { return c13::run_transforms_tiny (th); });
+
     R ().sample ("Box3i{min=(0,0,0) max=(3,3,3)}.intersects(Box3i{min=(2,0,0) max=(1,3,3)}) : argument is inverted => empty => expected false");
     R ().sample ("Box2f default-constructed .extendBy((1,2)) .extendBy(Box2f{(0,3),(0,3)}) == {(0,2),(1,3)}");
     R ().sample ("transform(Box3f{(0,0,0),(1,2,3)}, projective m, result=[100..200]^3) must REPLACE result");
